@@ -10,6 +10,7 @@ import BiscuitModel.Model.CApi
 import BiscuitModel.Model.TermParser
 import BiscuitModel.Model.ExprParser
 import BiscuitModel.Model.RuleParser
+import BiscuitModel.Model.BlockParser
 import BiscuitModel.Model.WireDec
 open Lean Biscuit Biscuit.Codec
 
@@ -699,6 +700,34 @@ def runItemParse (j : Json) : P Json := do
 
 end ItemParseOp
 
+/-! ### blockparse (C14): `parse_block_source` / `parse_source` -/
+section BlockParseOp
+open Biscuit.Printer Biscuit.TermParser Biscuit.ExprParser Biscuit.RuleParser Biscuit.BlockParser
+
+def runBlockParse (j : Json) : P Json := do
+  let text ← (← field j "text").getStr?
+  let kind ← (← field j "kind").getStr?
+  let dates ← (← getArr (← field j "dates")).mapM fun d => do
+    match ← getArr d with
+    | [t, v] => pure ((← t.getStr?).toList, ← getNat v)
+    | _ => throw "bad date entry"
+  let dateP : List Char → Option Nat := fun tok => (dates.find? (fun e => e.1 == tok)).map (·.2)
+  let res := if kind == "block" then parseBlockSource dateP text.toList else parseSource dateP text.toList
+  match res with
+  | none => pure (Json.mkObj [("r", "err")])
+  | some src =>
+    let bodies (bs : List Body) : Json := Json.arr (bs.map bodyJ).toArray
+    pure (Json.mkObj [("r", "ok"),
+      ("scopes", Json.arr (src.scopes.map sscopeJ).toArray),
+      ("facts", Json.arr (src.facts.map spredJ).toArray),
+      ("rules", Json.arr (src.rules.map fun hb => Json.mkObj [("head", spredJ hb.1), ("body", bodyJ hb.2)]).toArray),
+      ("checks", Json.arr (src.checks.map fun kb =>
+        Json.mkObj [("kind", Json.str (match kb.1 with | .one => "one" | .all => "all" | .reject => "reject")), ("bodies", bodies kb.2)]).toArray),
+      ("policies", Json.arr (src.policies.map fun kb =>
+        Json.mkObj [("kind", Json.str (match kb.1 with | .allow => "allow" | .deny => "deny")), ("bodies", bodies kb.2)]).toArray)])
+
+end BlockParseOp
+
 /-! ### keys (C17) -/
 section KeysOp
 open Biscuit.Keys
@@ -990,6 +1019,7 @@ def handle (line : String) : String :=
       | "termparse" => runTermParse j
       | "exprparse" => runExprParse j
       | "itemparse" => runItemParse j
+      | "blockparse" => runBlockParse j
       | "untrusted" => runUntrusted j
       | "macros" => runMacros j
       | "capi" => runCApi j
